@@ -71,6 +71,69 @@ CLAIMS = {
             "custom MIR provenance rules (argument origins, constant keys vs field names, guarded calls, guard "
             "liveness incl. unwind)",
             "3/C04"),
+    "C06": ("Decides, on built MIR of emit_batcher (async receiver analysed before coroutine lowering), the premises of the "
+            "no-loss/no-dup/no-reorder argument: each sender operation and each receive iteration is one critical section "
+            "of the state mutex, and the is_open value deciding termination is read in the same section as the emptiness "
+            "test; the pending batch is taken whole by mem::replace with a fresh never-filled batch under the lock on the "
+            "non-empty edge; items enter the pending batch only in send/try_send, it is cleared only in send (counted on "
+            "exactly those paths), replaced only by the receiver, each flag has one writer; a retry re-submits the "
+            "processor's remainder with the same watchers; Sender/Receiver are generic over T: Channel only, Receiver is "
+            "not Clone and is consumed by exec, nothing is spawned; no unaccounted panic-capable site in channel code "
+            "outside catch_unwind. The linearisation over all interleavings is a paper step from these premises.",
+            "custom MIR rules: lock/critical-section counting, guard provenance of field reads, who-may-write table, "
+            "predicate (bound) inspection, panic-site inventory",
+            "3/C06"),
+    "C07": ("Decides on built MIR: when_flushed fires at once exactly when !is_in_batch && (pending.is_empty() || "
+            "!is_open) (truth table over all 8 states extracted from the CFG) and otherwise attaches the callback to "
+            "the pending batch under the lock; the receiver sets/clears is_in_batch with the swap / watcher take; flush "
+            "watchers are notified outside the retry loop, on every exit of it and before exec returns, and travel with "
+            "a retried remainder; only the receiver replaces the pending batch or its watchers; blocking/async flush "
+            "wait on the notifier their callback triggers and return its result; end to end: the file worker returns Ok "
+            "only after flush+sync_all, the OTLP transport only when no request is left, every OTLP signal sender is "
+            "flushed and a failed one fails the flush, wrappers forward. Not decided: timeouts, receiver scheduling.",
+            "custom MIR rules: path-condition truth tables, natural-loop membership and must-pass-through, provenance",
+            "3/C07"),
+    "C08": ("Decides on built MIR: the processor runs only inside catch_unwind and its future is polled only through "
+            "CatchUnwind; watchers are drained once and each runs inside catch_unwind; every back edge of the retry loop "
+            "is control-dependent on Retry::next() and a non-empty remainder, budget and delays reset per batch, back-off "
+            "clamped; no await / callback / notification / wait while the state lock is held (guard liveness); dropping "
+            "sender or receiver closes the channel under the lock; exec returns only on the empty arm with the channel "
+            "closed, decided inside the one critical section; tokio blocking entry points never call block_on and call "
+            "block_in_place only under a runtime-flavour check (fixed defect); send_or_wait waits the remaining time; "
+            "panic-site inventory of channel code outside catch_unwind. Not decided: bounded time, OS scheduling.",
+            "custom MIR rules: containment (who-may-call), loop back-edge control dependence, guard liveness, effect names",
+            "3/C08"),
+    "C09": ("Decides on built MIR: send tests len >= max_capacity under the lock, clears on the full edge, counts the "
+            "truncation on exactly those paths, pushes afterwards and never waits; try_send pushes only under len < "
+            "max_capacity, hands the caller's item back when full and fails permanently when closed; send_or_wait uses "
+            "try_send only (never the discarding send), re-sends the handed-back item, waits the remaining time and "
+            "returns the item on expiry; the file and OTLP emitters' emit() reach (call graph over workspace bodies) no "
+            "filesystem/network/sleep/condvar/block_on/blocking-send effect and end in Sender::send; for every impl "
+            "Channel, clear() resets each field push() updates or len() reads, and the OTLP channel's len is its event "
+            "count. Not decided: effects inside dependencies, wall-clock bounds.",
+            "custom MIR rules: comparison-operator and edge inspection, call-graph effect reachability, field read/write sets",
+            "3/C09"),
+    "C10": ("Decides the worker's structure on built MIR (not what the OS does): every Ok return is dominated by "
+            "Write::flush then sync_all on the active file, on the success edge of both `?`; the active file is taken at "
+            "entry and stored back only after the successful sync; the cursor advances only on write_event's Ok edge and a "
+            "failed write returns retry(err, the same batch); in write_event the separator is written under "
+            "file_needs_recovery, the flag is set before and cleared only after a successful write_all of the event, no "
+            "bare Write::write; reuse opens in recovery mode, create clean; open_new = create_new+append, open_existing "
+            "append-only, parent directory synced before a created file is used; emit() appends a missing separator; "
+            "advance() steps by one and subtracts the taken length; events the cursor moved past are synced before any "
+            "return (one known finding). Not decided: byte identity, the in-memory fault model.",
+            "custom MIR rules: dominance/must-pass-through with ?-success edges, field-write ordering, constant options",
+            "3/C10"),
+    "C12": ("Decides on built MIR (async bodies pre-lowering): in OtlpTransport::send each iteration peeks one request, "
+            "awaits send_batch and removes exactly one request with the operation matching the peeked end (last/pop), "
+            "only on the Ok edge, from a single site; the Err edge returns the channel untouched with retryability "
+            "preserved; Ok only on the no-request-left edge; Channel::push adds the event to exactly one request and "
+            "counts it once; one Receiver::exec with its own transport per signal; the cached connection is taken before "
+            "and handed back only after a successful request, inside tokio::time::timeout; the accepted status sets "
+            "computed from the comparison constants are exactly HTTP 200..=299 and grpc-status 0; a transport error is "
+            "retryable. Not decided: network/collector behaviour, back-off timing.",
+            "custom MIR rules: await-source resolution, per-iteration removal counting, value-set evaluation of guards",
+            "3/C12"),
 }
 
 REASONS_NOT_YET = "check not built yet (build in progress; DESIGN.md section 3 lists the planned rules)"
